@@ -22,6 +22,7 @@ import GomlVerif.Driver.Dce
 import GomlVerif.Driver.C09
 import GomlVerif.Driver.GoComp
 import GomlVerif.Driver.C01pipe
+import GomlVerif.Driver.TSound
 import GomlVerif.Driver.Unify
 import GomlVerif.Driver.Solve
 import GomlVerif.Driver.Infer
@@ -59,6 +60,7 @@ def main (args : List String) : IO UInt32 := do
   | ["c09"] => Goml.Driver.C09.main; return 0
   | ["gocomp"] => Goml.Driver.GoComp.main; return 0
   | ["c01pipe"] => Goml.Driver.C01pipe.main; return 0
+  | ["tsound"] => Goml.Driver.TSound.main; return 0
   | ["unify"] => Goml.Driver.Unify.main; return 0
   | ["solve"] => Goml.Driver.Solve.main; return 0
   | ["infer"] => Goml.Driver.Infer.main; return 0
